@@ -44,6 +44,9 @@ typedef struct _operator
   int precedence;
 } Operator;
 
+// Number of '(' that have not been closed by a ')' yet.
+static int open_paren_count;
+
 static int get_operator(char *token, Operator *oper)
 {
   if (IS_TOKEN(token,'>'))
@@ -264,6 +267,8 @@ printf("debug> #if eval_operation() @EOL  n=%d precedence=%d state=%d\n", n, pre
           else
         if (IS_TOKEN(token,'('))
         {
+          open_paren_count++;
+
           if (parse_ifdef_expression(asm_context, &n, paren_count + 1, PREC_OR, 0) == -1)
           {
             return -1;
@@ -360,6 +365,8 @@ printf("debug> #if: parse_defined()=%d\n", n);
           if (n == -1) { return -1; }
       }
 
+      open_paren_count--;
+
       *num = n;
 
       return 0;
@@ -434,8 +441,16 @@ int eval_ifdef_expression(AsmContext *asm_context)
   int token_type;
   int num = 0;
 
+  open_paren_count = 0;
+
   if (parse_ifdef_expression(asm_context, &num, 0, PREC_OR, 0) == -1)
   {
+    return -1;
+  }
+
+  if (open_paren_count != 0)
+  {
+    print_error(asm_context, "Unbalanced parentheses.");
     return -1;
   }
 
